@@ -24,6 +24,11 @@ func checkSingular(s []float64) *vk.Failure {
 			return vk.Failf("singular-value-negative", "s[%d] = %v", i, v)
 		}
 		if i > 0 && s[i-1] < v {
+			if len(s) == 2 && v-s[0] <= 16*eps*v {
+				// known finding: a 2×2 bidiagonal matrix without vectors is handed
+				// to Dlas2 (Dlasq1, n == 2), whose two results can cross by ulps
+				return vk.Failf("dlas2-order-ulps", "s[0] = %v < s[1] = %v", s[0], v)
+			}
 			return vk.Failf("singular-values-not-descending", "s[%d] = %v < s[%d] = %v", i-1, s[i-1], i, v)
 		}
 	}
@@ -57,6 +62,10 @@ var svdJobs = []lapack.SVDJob{lapack.SVDAll, lapack.SVDStore, lapack.SVDNone}
 // fields: J[0] jobU, J[1] jobVT (0 all, 1 store, 2 none), M, N, Pad[0..2], LW,
 // Cls (rect class), Sc, Wrap
 func checkGesvd(c kase) *vk.Failure {
+	return viaDlarft(checkGesvdBody(c), c.M, c.N)
+}
+
+func checkGesvdBody(c kase) *vk.Failure {
 	m, n := c.M, c.N
 	mn := min(m, n)
 	rng := c.rng(4)
@@ -317,6 +326,10 @@ func bidiagDense(m, n int, d, e []float64) mat {
 // other dimension of C; M, N; Pad[0] lda, Pad[1] Dorgbr Q, Pad[2] Dorgbr PT,
 // Pad[3] ldc; LW; Cls
 func checkGebrd(c kase) *vk.Failure {
+	return viaDlarft(checkGebrdBody(c), c.M, c.N)
+}
+
+func checkGebrdBody(c kase) *vk.Failure {
 	m, n := c.M, c.N
 	mn := min(m, n)
 	rng := c.rng(5)
@@ -572,10 +585,10 @@ func genBidiag(cls, n int, rng *vk.SplitMix) (d, e []float64) {
 		}
 	case 1: // graded
 		for i := range d {
-			d[i] = math.Ldexp(1+rng.Float(), -4*i)
+			d[i] = math.Ldexp(1+rng.Float(), -gexp(4, i, n))
 		}
 		for i := range e {
-			e[i] = math.Ldexp(rng.Norm(), -4*i-1)
+			e[i] = math.Ldexp(rng.Norm(), -gexp(4, i, n)-1)
 		}
 	case 2: // diagonal, unsorted, with signs
 		for i := range d {
@@ -600,10 +613,10 @@ func genBidiag(cls, n int, rng *vk.SplitMix) (d, e []float64) {
 		}
 	case 6: // reverse graded
 		for i := range d {
-			d[i] = math.Ldexp(1+rng.Float(), 4*i-4*n)
+			d[i] = math.Ldexp(1+rng.Float(), gexp(4, i-n, n))
 		}
 		for i := range e {
-			e[i] = math.Ldexp(rng.Norm(), 4*i-4*n)
+			e[i] = math.Ldexp(rng.Norm(), gexp(4, i-n, n))
 		}
 	case 7: // Kahan-like: d=1, e=-const
 		for i := range d {
@@ -807,11 +820,16 @@ func checkLasv2(c s2Case) *vk.Failure {
 	tmin, tmax := impl.Dlas2(f*s, g*s, h*s)
 	ssmin, ssmax, tmin, tmax = ssmin/s, ssmax/s, tmin/s, tmax/s
 	nrm := nrm2([]float64{f, g, h})
-	tol := 16 * eps * nrm
+	tol := 16*eps*nrm + 0x1p-1070/s // relative bound plus a few quanta of the subnormal range
 	if math.Abs(ssmin) > math.Abs(ssmax) {
 		return vk.Failf("ssmin-larger", "Dlasv2(%v,%v,%v): |ssmin|=%v > |ssmax|=%v", f, g, h, ssmin, ssmax)
 	}
 	if tmin < 0 || tmax < tmin {
+		if tmin >= 0 && tmin-tmax <= 16*eps*tmax {
+			// known finding: for |f| ~ |h| (ratio within a few ulps of 1) the two
+			// independently rounded values can cross
+			return vk.Failf("dlas2-order-ulps", "Dlas2(%v,%v,%v) = (ssmin=%v, ssmax=%v): ssmin > ssmax", f, g, h, tmin, tmax)
+		}
 		return vk.Failf("dlas2-order", "Dlas2(%v,%v,%v) = (%v,%v)", f, g, h, tmin, tmax)
 	}
 	if math.Abs(tmin-math.Abs(ssmin)) > tol || math.Abs(tmax-math.Abs(ssmax)) > tol {
@@ -844,6 +862,14 @@ func TestLasv2(t *testing.T) {
 			c.A = vk.F(float64(c.A) * 1e-12)
 		case 2:
 			c.B = vk.F(float64(c.B) * 1e12)
+		case 3, 4:
+			// |f| and |h| a few ulps apart, g negligible or zero
+			h := float64(c.A)
+			for k := rapid.IntRange(0, 4).Draw(t, "ulps"); k > 0; k-- {
+				h = math.Nextafter(h, math.Inf(1))
+			}
+			c.C = vk.F(h)
+			c.B = vk.F(rapid.SampledFrom([]float64{0, 1e-20, 1e-9, -1e-8}).Draw(t, "gsmall"))
 		}
 		c.Sc = rapid.SampledFrom([]int{0, 0, 400, -400}).Draw(t, "sc")
 		return c
